@@ -470,6 +470,20 @@ theorem RLx_sub (t : Tid) (ts : List TaskRow) (p p' : List Item) (h : RLx t ts p
   fun r hr hne => ⟨fun hs => any_sub _ p p' ((h r hr hne).1 hs) hsub, fun hs => any_sub _ p p' ((h r hr hne).2 hs) hsub⟩
 
 /-- replacing the executions with identity `t` by a row that needs nothing re-establishes (A) -/
+theorem RL_setTask_x' (ts : List TaskRow) (p : List Item) (r : TaskRow) (h : RLx (idOf r) ts p)
+    (hr : (r.state = .IDLE → p.any (isStartFor (idOf r)) = true) ∧ (r.state = .RUNNING → p.any (isActFor (idOf r)) = true)) :
+    RL (setTask ts r) p := by
+  intro x hx
+  rcases mem_setTask' ts r x hx with ⟨h1, h2⟩ | h1
+  · apply h x h1
+    intro e
+    apply h2
+    unfold idOf at e
+    injection e with a b
+    exact ⟨a, b⟩
+  · subst h1
+    exact hr
+
 theorem RL_setTask_x (ts : List TaskRow) (p : List Item) (r : TaskRow) (h : RLx (idOf r) ts p)
     (hr : r.state ≠ .IDLE ∧ r.state ≠ .RUNNING) : RL (setTask ts r) p := by
   intro x hx
@@ -605,5 +619,86 @@ theorem completeTask_check (sp : Spec) (w : World) (r : TaskRow) (s : St) (hwf :
         have := congrArg List.length hnil
         simp at this
         simp [this]
+
+
+/-! ### one step: identities, (A) and (B) -/
+
+theorem pause_running (s : St) (h : (Lifecycle.wfApply s .pause).1 = .RUNNING) : s = .RUNNING := by
+  cases s <;> revert h <;> decide
+
+theorem stop_running (s t : St) (h : (Lifecycle.wfApply s (.stop t)).1 = .RUNNING) : s = .RUNNING := by
+  cases s <;> cases t <;> revert h <;> decide
+
+theorem resume_running (s : St) (h : isPausedOrIdle s = true) : (Lifecycle.wfApply s .resume).1 = .RUNNING := by
+  cases s <;> revert h <;> decide
+
+/-- an event that does not lose an action at its executor -/
+def lossless (ev : Event) : Prop := ∀ t, ev ≠ .deliver (.runAction t)
+
+theorem RL_replace (ts : List TaskRow) (p : List Item) (it new : Item) (h : RL ts p)
+    (hs : ∀ t, isStartFor t it = true → isStartFor t new = true)
+    (ha : ∀ t, isActFor t it = true → isActFor t new = true) : RL ts (removeFirst p it ++ [new]) := by
+  have key : ∀ (c : Item → Bool), (c it = true → c new = true) → p.any c = true →
+      (removeFirst p it ++ [new]).any c = true := by
+    intro c hc hany
+    obtain ⟨x, hx, hcx⟩ := List.any_eq_true.mp hany
+    by_cases e : x = it
+    · exact any_of_mem c _ new (by simp) (hc (e ▸ hcx))
+    · exact any_of_mem c _ x (List.mem_append_left _ (mem_removeFirst_of_ne p it x hx e)) hcx
+  intro r hr
+  exact ⟨fun hst => key _ (hs _) ((h r hr).1 hst), fun hst => key _ (ha _) ((h r hr).2 hst)⟩
+
+theorem RL_removeFirst_other (ts : List TaskRow) (p : List Item) (it : Item) (h : RL ts p)
+    (hs : ∀ t, isStartFor t it = false) (ha : ∀ t, isActFor t it = false) : RL ts (removeFirst p it) :=
+  fun r hr => ⟨fun hst => any_removeFirst _ p it ((h r hr).1 hst) (hs _),
+               fun hst => any_removeFirst _ p it ((h r hr).2 hst) (ha _)⟩
+
+theorem RLx_removeFirst (t : Tid) (ts : List TaskRow) (p : List Item) (it : Item) (h : RL ts p)
+    (ho : ∀ t', t' ≠ t → isStartFor t' it = false ∧ isActFor t' it = false) : RLx t ts (removeFirst p it) :=
+  fun r hr hne => ⟨fun hst => any_removeFirst _ p it ((h r hr).1 hst) (ho _ hne).1,
+                   fun hst => any_removeFirst _ p it ((h r hr).2 hst) (ho _ hne).2⟩
+
+/-- a consumed start request of `t` when no execution `t` is IDLE -/
+theorem RL_removeFirst_start (t : Tid) (ts : List TaskRow) (p : List Item) (it : Item) (h : RL ts p)
+    (ho : ∀ t', t' ≠ t → isStartFor t' it = false) (ha : ∀ t', isActFor t' it = false)
+    (hidle : ∀ x ∈ ts, idOf x = t → x.state ≠ .IDLE) : RL ts (removeFirst p it) := by
+  intro r hr
+  refine ⟨fun hst => ?_, fun hst => any_removeFirst _ p it ((h r hr).2 hst) (ha _)⟩
+  by_cases e : idOf r = t
+  · exact absurd hst (hidle r hr e)
+  · exact any_removeFirst _ p it ((h r hr).1 hst) (ho _ e)
+
+/-- the execution `r'` is made RUNNING and its action is handed over -/
+theorem RL_run (ts : List TaskRow) (p : List Item) (it : Item) (r' : TaskRow) (h : RL ts p)
+    (ho : ∀ t', t' ≠ idOf r' → isStartFor t' it = false ∧ isActFor t' it = false)
+    (hs : r'.state = .RUNNING) : RL (setTask ts r') (removeFirst p it ++ [.postRunAction (idOf r')]) := by
+  apply RL_setTask_x'
+  · exact RLx_sub _ _ _ _ (RLx_removeFirst (idOf r') ts p it h ho) (fun x hx => List.mem_append_left _ hx)
+  · refine ⟨fun e => ?_, fun _ => ?_⟩
+    · rw [hs] at e; cases e
+    · exact any_of_mem _ _ (.postRunAction (idOf r')) (by simp) (by simp [isActFor])
+
+theorem findTask_none_no_row (w : World) (t : Tid) (h : findTask w t = none) : ∀ x ∈ w.tasks, idOf x ≠ t := by
+  intro x hx e
+  unfold findTask at h
+  have := List.find?_eq_none.mp h x hx
+  unfold idOf at e
+  rw [← e] at this
+  simp at this
+
+theorem completed_not_idle_running (s : St) (h : isCompleted s = true) : s ≠ .IDLE ∧ s ≠ .RUNNING := by
+  constructor <;> (intro e; rw [e] at h; exact absurd h (by decide))
+
+structure Inv1 (w : World) : Prop where
+  ids : IdsOK w.tasks
+  rl : RL w.tasks w.pending
+  chk : w.wf = .RUNNING → HasIncomplete w.tasks ∨ Item.postCheck ∈ w.pending
+
+theorem inv1_init : Inv1 init := by
+  refine ⟨⟨?_, ?_⟩, ?_, ?_⟩
+  · intro r hr; simp [init] at hr
+  · intro r hr; simp [init] at hr
+  · intro r hr; simp [init] at hr
+  · intro h; simp [init] at h
 
 end Mistral.Engine.Live
